@@ -73,7 +73,8 @@ Inductive body : Type :=
 | BBytes (b : bytes)      (* []byte *)
 | BStr (b : bytes)        (* string *)
 | BInt (z : Z)            (* int64 *)
-| BFloat (bits : N).      (* float64, by its bit pattern *)
+| BFloat (bits : N)       (* float64, by its bit pattern *)
+| BProto (v : bytes).     (* a proto.Message: wrapperspb.BytesValue / StringValue holding v *)
 
 Record packet : Type := mkPacket {
   p_cmd : Z;              (* int32 *)
@@ -101,6 +102,9 @@ Definition body_bytes (b : body) : bytes :=
   | BStr x => x
   | BInt z => put_varint z
   | BFloat bits => put_uvarint bits
+  (* proto.Marshal of a message with the single field `1: bytes/string v` (proto3: an empty
+     value is not encoded): tag 0x0A, length as varint, the value *)
+  | BProto v => match v with [] => [] | _ => 10 :: put_uvarint (lenN v) ++ v end
   end.
 
 (* ------------------------------------------------------------------------------------ *)
